@@ -237,7 +237,7 @@ Lemma segment_loop_app : forall fuel nagle ss segs rem rwr ss' segs' rem',
   segment_loop fuel nagle ss segs rem rwr = Some (ss', segs', rem') ->
   exists l, ss_segs segs' = ss_segs segs ++ l /\
             Forall (fun g => sg_delivered g = false /\ sg_sent g = NotSent) l /\
-            ss_snd_una segs' = ss_snd_una segs.
+            ss_snd_una segs' = ss_snd_una segs /\ ss_removed segs' = ss_removed segs.
 Proof.
   induction fuel as [|x fuel IH]; intros nagle ss segs rem rwr ss' segs' rem' H; cbn [segment_loop] in H.
   - inversion H; subst. exists []. rewrite app_nil_r. auto.
@@ -246,11 +246,13 @@ Proof.
     destruct (_ && _ && _); [inversion H; subst; exists []; rewrite app_nil_r; auto|].
     match type of H with context [enqueue segs ?len ?p] =>
       destruct (enqueue_segs segs len p) as (g & G1 & G2 & G3 & _);
-      assert (Gu : ss_snd_una (enqueue segs len p) = ss_snd_una segs) by reflexivity end.
+      assert (Gu : ss_snd_una (enqueue segs len p) = ss_snd_una segs /\
+                   ss_removed (enqueue segs len p) = ss_removed segs) by (split; reflexivity) end.
+    destruct Gu as [Gu Gr].
     destruct (mss ss1 <? _).
-    + inversion H; subst. exists [g]. split; [exact G1|]. split; [|exact Gu]. constructor; auto.
-    + apply IH in H. destruct H as (l & L1 & L2 & L3). exists (g :: l).
-      rewrite L1, G1, <- app_assoc. split; [reflexivity|]. split; [|congruence]. constructor; auto.
+    + inversion H; subst. exists [g]. split; [exact G1|]. split; [|split; [exact Gu|exact Gr]]. constructor; auto.
+    + apply IH in H. destruct H as (l & L1 & L2 & L3 & L4). exists (g :: l).
+      rewrite L1, G1, <- app_assoc. split; [reflexivity|]. split; [|split; congruence]. constructor; auto.
 Qed.
 
 Lemma split_tx_queue_into_segments_rm : forall (s : vsock),
